@@ -136,4 +136,302 @@ example :
     validate { ptype := .list, itemType := some [PyVal.cInt], lenBounds := some (some 0, some 1) } {}
       (.list [.str "a", .str "b"]) = .error .valueError := ⟨rfl, rfl⟩
 
+/-! ## boundary values -/
+
+/-- the Number family: `Number`, `Magnitude`, and `Integer` for integer values -/
+def NumberLike (c : Cfg) (v : PyVal) : Prop :=
+  c.ptype = .number ∨ c.ptype = .magnitude ∨ (c.ptype = .integer ∧ v.isInt = true)
+
+theorem numberLike_iff (c : Cfg) (x : Ctx) (k : NumKind) (q : ExtRat) (h : NumberLike c (.num k q)) :
+    validate c x (.num k q) = .ok () ↔ InBounds c.bounds c.incl (.num k q) := by
+  have hcl : Clean c (.num k q) := by
+    unfold Clean; rcases h with h | h | ⟨h, _⟩ <;> simp [h, PyVal.isGenFn]
+  have hwf : WF c := by unfold WF; rcases h with h | h | ⟨h, _⟩ <;> simp [h]
+  rw [validate_ok_iff_sat c x _ hwf hcl]
+  unfold Sat
+  rcases h with h | h | ⟨h, hint⟩
+  · simp [h, NoneOk, DynamicOk, PyVal.isNone, PyVal.isCallable, PyVal.isNumber]
+  · simp [h, NoneOk, DynamicOk, PyVal.isNone, PyVal.isCallable, PyVal.isNumber]
+  · simp [h, NoneOk, DynamicOk, PyVal.isNone, PyVal.isCallable, hint]
+
+/-- A value sitting exactly on the lower hard bound (the upper side being
+satisfied) is accepted exactly when the lower side is inclusive. -/
+theorem boundary_accepted_iff_inclusive_lower (c : Cfg) (x : Ctx) (k k' : NumKind) (q : Rat)
+    (hi : Option PyVal) (h : NumberLike c (.num k (.fin q)))
+    (hb : c.bounds = some (some (.num k' (.fin q)), hi))
+    (hup : BelowOpt c.incl.2 (.num k (.fin q)) hi) :
+    validate c x (.num k (.fin q)) = .ok () ↔ c.incl.1 = true := by
+  rw [numberLike_iff c x k _ h, hb]
+  simp only [InBounds, hup, and_true, AboveOpt, Above]
+  cases c.incl.1 <;> simp [PyVal.le?, PyVal.lt?, ExtRat.le, ExtRat.lt, Rat.lt_irrefl]
+
+/-- … and symmetrically on the upper hard bound. -/
+theorem boundary_accepted_iff_inclusive_upper (c : Cfg) (x : Ctx) (k k' : NumKind) (q : Rat)
+    (lo : Option PyVal) (h : NumberLike c (.num k (.fin q)))
+    (hb : c.bounds = some (lo, some (.num k' (.fin q))))
+    (hlow : AboveOpt c.incl.1 lo (.num k (.fin q))) :
+    validate c x (.num k (.fin q)) = .ok () ↔ c.incl.2 = true := by
+  rw [numberLike_iff c x k _ h, hb]
+  simp only [InBounds, hlow, true_and, BelowOpt, Below]
+  cases c.incl.2 <;> simp [PyVal.le?, PyVal.lt?, ExtRat.le, ExtRat.lt, Rat.lt_irrefl]
+
+/-- non-vacuity: `Integer(bounds=(0, 5), inclusive_bounds=(False, True))` refuses `False` (= 0),
+`Integer(bounds=(0, 5))` accepts it -/
+example :
+    let c : Cfg := { ptype := .integer, bounds := some (some (.num .int (.fin 0)), some (.num .int (.fin 5))),
+                     incl := (false, true) }
+    NumberLike c (.num .bool (.fin 0)) ∧ BelowOpt c.incl.2 (.num .bool (.fin 0)) (some (.num .int (.fin 5))) ∧
+      validate c {} (.num .bool (.fin 0)) = .error .valueError ∧
+      validate { c with incl := (true, true) } {} (.num .bool (.fin 0)) = .ok () :=
+  ⟨Or.inr (Or.inr ⟨rfl, rfl⟩), by decide, rfl, rfl⟩
+
+/-- the ends of a Range: an end sitting on the lower hard bound is admitted
+exactly when that side is inclusive (everything else being satisfied) -/
+theorem boundary_range_lower (c : Cfg) (x : Ctx) (k k' k'' : NumKind) (q : Rat) (e : ExtRat)
+    (hi : Option PyVal) (hp : c.ptype = .range) (hwf : WF c)
+    (hb : c.bounds = some (some (.num k' (.fin q)), hi))
+    (hup : BelowOpt c.incl.2 (.num k (.fin q)) hi)
+    (hother : InBounds c.bounds c.incl (.num k'' e))
+    (hstep : StepOrder c.step (.num k (.fin q)) (.num k'' e)) :
+    validate c x (.tuple [.num k (.fin q), .num k'' e]) = .ok () ↔ c.incl.1 = true := by
+  have hcl : Clean c (.tuple [.num k (.fin q), .num k'' e]) := by unfold Clean; simp [hp]
+  rw [validate_ok_iff_sat c x _ hwf hcl]
+  unfold Sat
+  simp only [hp, NoneOk, PyVal.isNone, OnTuple, OnPair, RangeEnds, mapBounds_id, id, hother, hstep,
+    PyVal.isNumber, true_and, and_true, Bool.false_eq_true, false_and, false_or]
+  rw [hb]
+  simp only [InBounds, hup, and_true, AboveOpt, Above]
+  cases c.incl.1 <;> simp [PyVal.le?, PyVal.lt?, ExtRat.le, ExtRat.lt, Rat.lt_irrefl]
+
+/-! ## NaN -/
+
+/-- NaN is inside no hard bound: as soon as one side is bounded (by a number),
+the Number family rejects it, with a ValueError. -/
+theorem nan_never_within_bounds (c : Cfg) (x : Ctx) (k : NumKind) (lo hi : Option PyVal)
+    (hp : c.ptype = .number ∨ c.ptype = .magnitude ∨ c.ptype = .integer)
+    (hb : c.bounds = some (lo, hi)) (hside : lo.isSome = true ∨ hi.isSome = true)
+    (hnum : BoundsOfType PyVal.isNumber c.bounds) :
+    validate c x (.num k .nan) = .error .valueError ∧ ¬ Sat c x (.num k .nan) := by
+  rw [hb] at hnum
+  have hbn := numberBounds_nan c.allowNone k lo hi c.incl hside hnum
+  have hin := nan_not_inBounds k lo hi c.incl hside hnum
+  constructor
+  · unfold validate
+    rcases hp with hp | hp | hp <;> simp only [hp, hb, hbn]
+    · cases hn : c.allowNone <;> simp [numberValue, PyVal.isNone, PyVal.isCallable, PyVal.isNumber, seq, valueErr]
+    · cases hn : c.allowNone <;> simp [numberValue, PyVal.isNone, PyVal.isCallable, PyVal.isNumber, seq, valueErr]
+    · cases k <;> cases hn : c.allowNone <;>
+        simp [integerValue, PyVal.isNone, PyVal.isCallable, PyVal.isInt, seq, valueErr]
+  · unfold Sat
+    rw [hb]
+    rcases hp with hp | hp | hp <;>
+      simp [hp, NoneOk, DynamicOk, PyVal.isNone, PyVal.isCallable, hin]
+
+/-- non-vacuity: `Number(bounds=(None, inf))` -/
+example :
+    let c : Cfg := { ptype := .number, bounds := some (none, some (.num .float .pinf)) }
+    (c.ptype = .number ∨ c.ptype = .magnitude ∨ c.ptype = .integer) ∧
+      BoundsOfType PyVal.isNumber c.bounds ∧ validate c {} (.num .float .nan) = .error .valueError := by
+  refine ⟨by decide, by decide, rfl⟩
+
+/-- A Range with a hard bound on some side never admits a pair with a NaN end. -/
+theorem nan_never_within_range_bounds (c : Cfg) (x : Ctx) (a b : PyVal) (lo hi : Option PyVal)
+    (hp : c.ptype = .range) (hwf : WF c) (hb : c.bounds = some (lo, hi))
+    (hside : lo.isSome = true ∨ hi.isSome = true) (hnan : a.isNanNum = true ∨ b.isNanNum = true) :
+    validate c x (.tuple [a, b]) ≠ .ok () ∧ ¬ Sat c x (.tuple [a, b]) := by
+  have hcl : Clean c (.tuple [a, b]) := by unfold Clean; simp [hp]
+  have hns : ¬ Sat c x (.tuple [a, b]) := by
+    have hnb : ∀ v : PyVal, v.isNanNum = true → ¬ InBounds (some (lo, hi)) c.incl v := by
+      intro v hv
+      cases v <;> simp [PyVal.isNanNum] at hv
+      rename_i k q
+      cases q <;> simp [ExtRat.isNan] at hv
+      unfold WF at hwf; simp only [hp, hb] at hwf
+      exact nan_not_inBounds k lo hi c.incl hside hwf.2.1
+    unfold Sat
+    simp only [hp, NoneOk, PyVal.isNone, OnTuple, OnPair, RangeEnds, mapBounds_id, id, hb,
+      Bool.false_eq_true, false_and, false_or]
+    rintro ⟨_, _, h1, h2, _⟩
+    rcases hnan with h | h
+    · exact hnb a h h1
+    · exact hnb b h h2
+  exact ⟨fun h => hns ((validate_ok_iff_sat c x _ hwf hcl).1 h), hns⟩
+
+/-- non-vacuity: `Range(bounds=(0, None))` and `(nan, 1)` -/
+example :
+    let c : Cfg := { ptype := .range, length := 2, bounds := some (some (.num .int (.fin 0)), none) }
+    WF c ∧ (PyVal.num .float .nan).isNanNum = true := by decide
+
+/-! ## what an assignment installs; the routes -/
+
+/-- Every route is "validate, then store". -/
+theorem routes_agree (r₁ r₂ : Route) (c : Cfg) (x : Ctx) (v : PyVal) :
+    assign r₁ c x v = assign r₂ c x v := rfl
+
+/-- On every route an assignment succeeds exactly when the value satisfies the
+declared constraints, and otherwise raises ValueError / TypeError. -/
+theorem assign_accepted_iff_sat (r : Route) (c : Cfg) (x : Ctx) (v : PyVal) (hwf : WF c) (hcl : Clean c v) :
+    ((assign r c x v).accepted = true ↔ Sat c x v) ∧
+    (∀ e, assign r c x v = .rejected e → e = .valueError ∨ e = .typeError) := by
+  unfold assign
+  constructor
+  · rw [← validate_ok_iff_sat c x v hwf hcl]
+    cases h : validate c x v with
+    | ok u => cases u; simp [Outcome.accepted]
+    | error e => simp [Outcome.accepted]
+  · intro e
+    cases h : validate c x v with
+    | ok u => simp
+    | error e' =>
+      simp only [Outcome.rejected.injEq]
+      rintro rfl
+      exact validate_err_kind c x v _ hwf hcl h
+
+/-- What an assignment installs satisfied the constraints at that moment: the
+assigned value did, and the stored value (the assigned one; `False` for an
+Event) does. -/
+theorem stored_value_sat (r : Route) (c : Cfg) (x : Ctx) (v w : PyVal) (hwf : WF c) (hcl : Clean c v)
+    (h : assign r c x v = .stored w) :
+    Sat c x v ∧ Sat c x w ∧ (c.ptype ≠ .event → w = v) := by
+  unfold assign at h
+  cases hv : validate c x v with
+  | error e => simp [hv] at h
+  | ok u =>
+    cases u
+    simp only [hv, Outcome.stored.injEq] at h
+    have hs := (validate_ok_iff_sat c x v hwf hcl).1 hv
+    refine ⟨hs, ?_, ?_⟩
+    · subst h
+      unfold storedValue
+      cases hp : c.ptype <;> simp only <;> try exact hs
+      unfold Sat; simp [hp, PyVal.isBool]
+    · intro hne
+      subst h
+      unfold storedValue
+      cases hp : c.ptype <;> simp_all
+
+/-- non-vacuity: an accepted assignment to a bounded Integer, and an Event -/
+example :
+    assign .instAttr { ptype := .integer, bounds := some (some (.num .int (.fin 0)), none) } {} (.num .bool (.fin 1))
+      = .stored (.num .bool (.fin 1)) ∧
+    assign .update { ptype := .event } {} (.num .bool (.fin 1)) = .stored (.num .bool (.fin 0)) := ⟨rfl, rfl⟩
+
+/-! ## constructors: every argument reaches the slot it names -/
+
+/-- The constraint slots a constructor installs are the declared ones (the
+`allow_None` rule, Tuple `length`, Magnitude's default bounds, the Selector
+auto default and `check_on_set`), and the default it validates is the declared
+default. -/
+theorem ctor_arg_effective (a : Args) (c : Cfg) (d : PyVal) (hc : CleanArgs a)
+    (hmk : mkCfg a = .ok (c, d)) (hwf : WF c) : specCfg a = some c ∧ d = specDefault a :=
+  mkCfg_spec a c d hc hmk hwf
+
+/-- A constructor succeeds exactly when the default satisfies the declared
+constraints (a Selector may always default to `None`). -/
+theorem ctor_ok_iff_default_sat (a : Args) (x : Ctx) (c : Cfg) (d : PyVal) (hc : CleanArgs a)
+    (hmk : mkCfg a = .ok (c, d)) (hwf : WF c) (hcl : Clean c d) :
+    (∃ c', construct a x = .ok c') ↔ CtorSat a x := by
+  obtain ⟨hs, hd⟩ := mkCfg_spec a c d hc hmk hwf
+  have hpt : c.ptype = a.ptype := by
+    unfold mkCfg at hmk
+    split at hmk
+    · split at hmk
+      · simp at hmk
+      · split at hmk
+        · simp at hmk
+        · simp only [Except.ok.injEq, Prod.mk.injEq] at hmk; rw [← hmk.1]; rfl
+    · simp only [Except.ok.injEq, Prod.mk.injEq] at hmk; rw [← hmk.1]; rfl
+  unfold construct CtorSat
+  rw [hmk, hs, ← hd]
+  simp only [ctorValidate_eq, hpt]
+  by_cases hsel : (a.ptype = .selector ∨ a.ptype = .listSelector) ∧ d.isNone = true
+  · rcases hsel with ⟨hsel, hdn⟩
+    rcases hsel with hsel | hsel <;> simp [hsel, hdn]
+  · simp only [hsel, if_false]
+    have hiff := validate_ok_iff_sat c x d hwf hcl
+    cases hv : validate c x d with
+    | ok u =>
+      cases u
+      have hs' := hiff.1 hv
+      cases hp : a.ptype <;> simp_all
+    | error e =>
+      have hs' : ¬ Sat c x d := fun hsat => by rw [hiff.2 hsat] at hv; cases hv
+      cases hp : a.ptype <;> simp_all
+
+/-- non-vacuity: `Bytes(default=b'', allow_None=True)` declares, and gets, `allow_None` -/
+example :
+    let a : Args := { ptype := .bytes, default := some (.bytes ""), allowNone := some true }
+    CleanArgs a ∧ (∃ c d, mkCfg a = .ok (c, d) ∧ WF c ∧ c.allowNone = true) := by
+  refine ⟨by decide, _, _, rfl, by decide, rfl⟩
+
+/-! ## the statement without the exclusions is false of the code: witnesses -/
+
+/-- the full equivalence, without `Clean` -/
+def C01_full : Prop :=
+  ∀ (c : Cfg) (x : Ctx) (v : PyVal), WF c → (validate c x v = .ok () ↔ Sat c x v)
+
+/-- `Integer()` accepts a generator function (Number refuses it): replayed on the code. -/
+theorem witness_integer_generator :
+    validate { ptype := .integer } {} (.func 3 true) = .ok () ∧
+    ¬ Sat { ptype := .integer } {} (.func 3 true) := ⟨rfl, by decide⟩
+
+/-- `ListSelector(objects=[1, 2], allow_None=True)` accepts `[None, 1]`. -/
+theorem witness_listSelector_none_item :
+    let c : Cfg := { ptype := .listSelector, allowNone := true,
+                     objects := [.num .int (.fin 1), .num .int (.fin 2)] }
+    validate c {} (.list [.none, .num .int (.fin 1)]) = .ok () ∧
+    ¬ Sat c {} (.list [.none, .num .int (.fin 1)]) := ⟨rfl, by decide⟩
+
+/-- `CalendarDateRange()` accepts a *list* of two dates, and leaks a KeyError on a mapping. -/
+theorem witness_calendarDateRange_non_tuple :
+    let c : Cfg := { ptype := .calendarDateRange, length := 2 }
+    validate c {} (.list [.date 737425, .date 737426]) = .ok () ∧
+    ¬ Sat c {} (.list [.date 737425, .date 737426]) ∧
+    validate c {} (.dict [.date 737425, .date 737426] [.none, .none]) = .error (.other "KeyError") :=
+  ⟨rfl, by decide, rfl⟩
+
+/-- `Color()` accepts `'#fff\n'`: `$` matches before a trailing newline. -/
+theorem witness_color_trailing_newline :
+    validate { ptype := .color } {} (.str "#fff\n") = .ok () ∧
+    ¬ Sat { ptype := .color } {} (.str "#fff\n") := ⟨rfl, by decide⟩
+
+theorem C01_full_refuted : ¬ C01_full := by
+  intro h
+  have := (h { ptype := .integer } {} (.func 3 true) (by decide)).1 witness_integer_generator.1
+  exact witness_integer_generator.2 this
+
+/-- the equivalence that does hold -/
+theorem C01_partial :
+    ∀ (c : Cfg) (x : Ctx) (v : PyVal), WF c → Clean c v → (validate c x v = .ok () ↔ Sat c x v) :=
+  fun c x v hwf hcl => validate_ok_iff_sat c x v hwf hcl
+
+/-- every constructor argument is effective, without `CleanArgs` -/
+def C01_ctor_full : Prop :=
+  ∀ (a : Args) (c : Cfg) (d : PyVal), mkCfg a = .ok (c, d) → WF c → specCfg a = some c
+
+/-- `Tuple(default=(1, 2, 3), length=2)` and `XYCoordinates(default=(1, 2, 3))` end up with
+length 3: the declared length is silently replaced by the length of the default. -/
+theorem witness_tuple_length_overridden :
+    let d : PyVal := .tuple [.num .int (.fin 1), .num .int (.fin 2), .num .int (.fin 3)]
+    (∃ c, mkCfg { ptype := .tuple, default := some d, length := some 2 } = .ok (c, d) ∧ c.length = 3) ∧
+    (∃ c, mkCfg { ptype := .xy, default := some d } = .ok (c, d) ∧ c.length = 3) ∧
+    ((specCfg { ptype := .tuple, default := some d, length := some 2 }).map (·.length) = some 2) ∧
+    ((specCfg { ptype := .xy, default := some d }).map (·.length) = some 2) :=
+  ⟨⟨_, rfl, rfl⟩, ⟨_, rfl, rfl⟩, by decide, by decide⟩
+
+theorem C01_ctor_full_refuted : ¬ C01_ctor_full := by
+  intro h
+  let d : PyVal := .tuple [.num .int (.fin 1), .num .int (.fin 2), .num .int (.fin 3)]
+  let a : Args := { ptype := .tuple, default := some d, length := some 2 }
+  have hmk : mkCfg a = .ok ({ baseCfg a with length := 3 }, d) := rfl
+  have hs := h a _ d hmk (by decide)
+  have h2 : (specCfg a).map (·.length) = some 2 := by decide
+  rw [hs] at h2
+  simp at h2
+
+/-- the constructor statement that does hold -/
+theorem C01_ctor_partial :
+    ∀ (a : Args) (c : Cfg) (d : PyVal), CleanArgs a → mkCfg a = .ok (c, d) → WF c → specCfg a = some c :=
+  fun a c d hc hmk hwf => (mkCfg_spec a c d hc hmk hwf).1
+
 end ParamVerif.Validate
